@@ -55,6 +55,10 @@ pub struct Case {
 pub trait Elem: MatrixElement + PartialEq + Debug {
     fn from_i64(v: i64) -> Self;
     fn add_i64(self, v: i64) -> Self;
+    /// a value that is not equal to itself, if the element type has one
+    fn not_self_equal() -> Option<Self> {
+        None
+    }
 }
 impl Elem for u8 {
     fn from_i64(v: i64) -> Self {
@@ -81,6 +85,9 @@ impl Elem for i64 {
     }
 }
 impl Elem for f32 {
+    fn not_self_equal() -> Option<Self> {
+        Some(f32::NAN)
+    }
     fn from_i64(v: i64) -> Self {
         (v % 100_000) as f32
     }
@@ -376,6 +383,26 @@ fn run<T: Elem, C: ArrayLength + PartialEq>(case: &Case) -> Verdict {
             return Verdict::Fail(Failure::new("dense:eq", "matrices with different row counts compare equal".to_string()));
         }
     }
+    // equality is that of the cells, whoever the operands are: a matrix holding a value that is not equal to
+    // itself (a float NaN) is not equal to a clone of itself - and, by the same cells, not equal to itself
+    if let (Some(nan), false) = (T::not_self_equal(), model.is_empty()) {
+        let mut n = m.clone();
+        let r = model.len() / 2;
+        n[r][c / 2] = nan;
+        let cl = n.clone();
+        let by_clone = n == cl;
+        #[allow(clippy::eq_op)]
+        let by_self = n == n;
+        #[allow(clippy::eq_op)]
+        let ne_self = n != n;
+        if by_clone || by_self || !ne_self {
+            return Verdict::Fail(Failure::new(
+                "dense:eq-not-by-cells",
+                format!("a matrix with a NaN cell: == clone gives {}, == itself gives {}, != itself gives {} (the cells say false / false / true)", by_clone, by_self, ne_self),
+            ));
+        }
+        info.class("nan-equality-checked");
+    }
     info.nontrivial = case.ops.len() >= 5 && grew_after_write && shrank;
     info.class(match case.ty {
         Ty::U8 => "u8",
@@ -420,7 +447,7 @@ impl Sub for Model {
         "model"
     }
     fn rule(&self) -> &'static str {
-        "element type {u8,u32,f32,i64} x column count {1,5,7,16,21,32,43} x history of up to 40 ops (new, with_capacity, resize grow/shrink/0, reserve, cell writes via both Index forms, row writes, fill, from_rows, clone-and-continue, clone_from in both directions between matrices of different row counts and capacities, iter_mut, into_iter_mut.rev); after EVERY op rows/columns/all cells/row pointer alignment/stride/iterators (forward, reverse, mixed double-ended, len) are compared with a Vec<Vec<T>> model, then equality against a matrix with equal cells but a different padding history; non-trivial = >= 5 ops incl. a growing resize after writes and a shrink"
+        "element type {u8,u32,f32,i64} x column count {1,5,7,16,21,32,43} x history of up to 40 ops (new, with_capacity, resize grow/shrink/0, reserve, cell writes via both Index forms, row writes, fill, from_rows, clone-and-continue, clone_from in both directions between matrices of different row counts and capacities, iter_mut, into_iter_mut.rev); after EVERY op rows/columns/all cells/row pointer alignment/stride/iterators (forward, reverse, mixed double-ended, len) are compared with a Vec<Vec<T>> model, then equality against a matrix with equal cells but a different padding history, and (f32) equality of a matrix holding a NaN with its clone and with itself (by the cells: unequal both times); non-trivial = >= 5 ops incl. a growing resize after writes and a shrink"
     }
     fn cases(&self, tier: Tier) -> u64 {
         tier.pick(28 * 3_000, 28 * 60_000)
